@@ -31,24 +31,27 @@ DocsSent(e) == IF Supports(e.ops) /\ GaveJobId(e.create) THEN {i \in 1..e.n : Se
 WantMulti(e) == 1 + (IF Supports(e.ops) THEN 1 ELSE 0) + Cardinality(DocsSent(e))
 CompleteMulti(e) == Cardinality(DocsSent(e)) = e.n /\ \A i \in 1..e.n : e.sends[i] # "http"
 
-Typed(o) == CASE o.class = "true" -> BoolV(TRUE) [] o.class = "false" -> BoolV(FALSE)
-              [] o.class = "int" -> IntV(o.ival) [] OTHER -> KwV(o.text)
-RECURSIVE OptCalls(_,_)
-OptCalls(os, i) == IF i > Len(os) THEN <<>>
-                   ELSE (IF os[i].class = "noeq" THEN <<>> ELSE <<[c |-> "attribute", name |-> os[i].k, v |-> Typed(os[i])]>>)
-                        \o OptCalls(os, i + 1)
+(* "+5" is accepted by i32 parsing but is arguably not "a decimal integer": either typing is a step (alt) *)
+Typed(o, alt) == CASE o.class = "true" -> BoolV(TRUE) [] o.class = "false" -> BoolV(FALSE)
+                   [] o.class = "int" -> IntV(o.ival)
+                   [] o.class = "plusint" -> (IF alt THEN IntV(o.ival) ELSE KwV(o.text))
+                   [] OTHER -> KwV(o.text)
+RECURSIVE OptCalls(_,_,_)
+OptCalls(os, i, alt) == IF i > Len(os) THEN <<>>
+                        ELSE (IF os[i].class = "noeq" THEN <<>> ELSE <<[c |-> "attribute", name |-> os[i].k, v |-> Typed(os[i], alt)]>>)
+                             \o OptCalls(os, i + 1, alt)
 ObservedUri(gs) == IF Len(gs) >= 1 /\ N_puri \in DOMAIN gs[1].attrs THEN gs[1].attrs[N_puri] ELSE [k |-> "MISSING"]
 Matches(e, d) == \E j \in 1..Len(e.paymatch) : e.paymatch[j] = d
 
 (* the request the model's k-th step describes *)
-Expected(k, uriV) ==
+Expected(k, uriV, alt) ==
   IF a.prog = "multi-doc" THEN
        IF k = 1 THEN Build("GetPrinterAttributes", <<[c |-> "req_attr", s |-> N_opsup]>>, 0, uriV)
        ELSE IF k = 2 THEN Build("CreateJob", <<[c |-> "job_name", s |-> MultiDocTitle]>>, 0, uriV)
        ELSE Build("SendDocument", <<[c |-> "user_name", s |-> a.user.s], [c |-> "last", b |-> (k - 2 = a.n)]>>, a.jobid, uriV)
   ELSE IF a.prog \in {"print-job", "print-job-async"} THEN
        Build("PrintJob", <<[c |-> "user_name", s |-> IF a.user.has THEN a.user.s ELSE NoName],
-                           [c |-> "job_title", s |-> a.title]>> \o OptCalls(a.opts, 1), 0, uriV)
+                           [c |-> "job_title", s |-> a.title]>> \o OptCalls(a.opts, 1, alt), 0, uriV)
   ELSE IF a.prog = "get-attrs" THEN Build("GetPrinterAttributes", <<[c |-> "req_attrs", list |-> a.attrs]>>, 0, uriV)
   ELSE IF a.prog = "get-printers" THEN Build("CupsGetPrinters", <<>>, 0, uriV)
   ELSE Build("CupsDeletePrinter", <<>>, 0, uriV)
@@ -64,11 +67,11 @@ XReq(e) ==
   /\ LET k    == reqs + 1
          r    == Reading(AbsToks(e.toks))
          uriV == ObservedUri(r.v)
-         exp  == Expected(k, uriV)
+         exp(alt) == Expected(k, uriV, alt)
          d    == DocOf(k)
      IN /\ r.ok
-        /\ e.hdr_ipp.ver = exp.ver /\ e.hdr_ipp.code = exp.code
-        /\ NormMsg(r.v) = NormMsg(exp.groups)
+        /\ e.hdr_ipp.ver = exp(TRUE).ver /\ e.hdr_ipp.code = exp(TRUE).code
+        /\ \E alt \in BOOLEAN : ReqNorm(r.v) = ReqNorm(exp(alt).groups)
         /\ (a.prog # "get-printers" => (uriV.k = "Uri" /\ IsCanonOf(e.puri, a.target)))
         /\ (IF d = 0 THEN e.paylen = 0 ELSE Matches(e, d))     \* the k-th document, unchanged, in argument order
   /\ reqs' = reqs + 1 /\ UNCHANGED a
